@@ -9,11 +9,11 @@ from dissect.cobaltstrike.c2 import parse_raw_http, HttpRequest, HttpResponse
 comp = Component("serialize-parse-roundtrip",
                  "random requests (method token, ASCII path, 0-3 params with arbitrary non-empty byte values percent-encoded, 0-3 "
                  "'Key: value' headers, arbitrary binary body incl. CRLFCRLF / NUL) and responses (status 100-599, single-token reason); "
-                 "400 cases quick / 20000 thorough, seed=VERIF_SEED")
+                 "1500 cases quick / 20000 thorough, seed=VERIF_SEED")
 TOK = b"ABCDEFGHIJKLMNOPQRSTUVWXYZabcdefghijklmnopqrstuvwxyz0123456789-_"
 def tok(n): return bytes(rng.choice(TOK) for _ in range(n))
 def blob(n): return bytes(rng.choice([0, 13, 10, 32, 58, 37, 38, 61, 255, rng.randrange(256)]) for _ in range(n))
-N = 400 if TIER == "quick" else 20000
+N = 1500 if TIER == "quick" else 20000
 for i in range(N):
     headers = {}
     for _ in range(rng.randrange(0, 4)):
